@@ -28,6 +28,10 @@ type C19Scenario struct {
 	// still reaches the wire afterwards stays inside the envelope
 	CloseAtMS int `json:"close_at_ms,omitempty"`
 	CloseSide int `json:"close_side,omitempty"`
+	// PaceMS > 0: the server-side writers pause that long (virtual) after every
+	// write - a source that offers more than the rate, but not infinitely fast,
+	// so that the limiter's bucket is partly refilled whenever it is asked
+	PaceMS int `json:"pace_ms,omitempty"`
 }
 
 func logUniform(g *Gen, lo, hi float64) int64 {
@@ -63,6 +67,14 @@ func genC19(g *Gen) any {
 		sc.WriteSize = g.Pick(3000, 16000, 40000)
 		sc.CloseAtMS = g.Pick(1, 500, 1500, 3000, g.Int(1, 5000))
 		sc.CloseSide = g.Int(0, 1)
+	} else if g.Bool(0.15) {
+		// one paced, overdriving sender: frame-sized writes every PaceMS, offered
+		// at 1.5..4 times the rate, for 25 s: still served at the rate
+		sc.TxRate = logUniform(g, 16640, 100000)
+		sc.Sessions, sc.Streams = sc.Sessions[:1], []int{1}
+		sc.UpBytes, sc.WriteSize = 0, 16000
+		sc.PaceMS = int(16000 * 1000 / (float64(sc.TxRate) * []float64{1.5, 2, 4}[g.Rng.IntN(3)]))
+		sc.DownBytes = int(sc.TxRate) * 25
 	}
 	return sc
 }
@@ -148,6 +160,9 @@ func runC19(c *Ctx, scAny any) {
 							if _, err := conn.Write(buf[:k]); err != nil {
 								fail(wi, "error:write", err)
 								return
+							}
+							if sc.PaceMS > 0 {
+								Sleep(time.Duration(sc.PaceMS) * time.Millisecond)
 							}
 						}
 					})
